@@ -123,6 +123,8 @@ var Registry = []Binding{
 	{"phase0.VoluntaryExit", func() interface{} { return new(phase0.VoluntaryExit) }, st(phase0.VoluntaryExitType)},
 	{"phase0.SignedVoluntaryExit", func() interface{} { return new(phase0.SignedVoluntaryExit) }, st(phase0.SignedVoluntaryExitType)},
 	{"phase0.VoluntaryExits", func() interface{} { return new(phase0.VoluntaryExits) }, func(s *S) view.TypeDef { return phase0.BlockVoluntaryExitsType(s) }},
+	// view-only: the deposit-contract root list has no struct form in the library
+	{"phase0.DepositRootsView", nil, st(phase0.DepositRootsType)},
 	// ---- altair
 	{"altair.BeaconBlockBody", func() interface{} { return new(altair.BeaconBlockBody) }, func(s *S) view.TypeDef { return altair.BeaconBlockBodyType(s) }},
 	{"altair.BeaconBlock", func() interface{} { return new(altair.BeaconBlock) }, func(s *S) view.TypeDef { return altair.BeaconBlockType(s) }},
